@@ -407,6 +407,7 @@ class RecorderDomain(Domain):
         Domain.__init__(self, graph, repo, excm, policy)
         self.roles = roles
         self.track_free = set(track_free)
+        self.track_attrs = set()
         self.init = init or {}
         self.count = count
         self.exits = []
@@ -443,6 +444,8 @@ class RecorderDomain(Domain):
         if name[0] == 'field':
             return True
         if name[0] == 'attr' and isinstance(name[1], tuple) and name[1][:1] == ('field',):
+            return True
+        if name[0] == 'attr' and name[2] in self.track_attrs:
             return True
         if name[0] == 'pure' and name[1] in ('builtin:hasattr', 'builtin:callable'):
             return True
@@ -500,6 +503,8 @@ class RecorderDomain(Domain):
         if lab == 'builtin:hasattr' and len(args) == 2 and args[1].kind == 'const':
             if ('F', args[0].name, args[1].name) in state.env:
                 return TRUE
+        if lab == 'builtin:type' and len(args) == 1:
+            return V('obj', ('type-of', args[0].name), EMPTY)
         if lab.split('@')[0] in ('method:format', 'method:join', 'method:encode', 'builtin:str', 'builtin:repr',
                                  'builtin:list', 'builtin:dict', 'builtin:sorted', 'builtin:tuple', 'builtin:type',
                                  'lib:jsonpickle.encode', 'lib:time.time'):
